@@ -368,3 +368,13 @@ func NewExec() func(w []string) string {
 		return hk.Guard(func() string { return st.exec(w) })
 	}
 }
+
+// osStderrQuiet points os.Stderr at /dev/null (the blobpacked storage creates its logger from it on
+// first use) and returns the function that restores it.
+func osStderrQuiet() func() {
+	saved := os.Stderr
+	if devNull != nil {
+		os.Stderr = devNull
+	}
+	return func() { os.Stderr = saved }
+}
